@@ -16,7 +16,7 @@ PROPERTY = "C01"
 ENGINE = "symx"
 
 # (m, n, rates): rates None = every representative of R(m); else the representatives nearest to the listed values
-QUICK_SHAPES = [(2, 3, None), (3, 2, None), (3, 4, None), (4, 5, (0.0, 0.25, 0.5))]
+QUICK_SHAPES = [(3, 2, None), (3, 4, None), (4, 5, (0.0, 0.25, 0.5))]
 THOROUGH_SHAPES = [(1, 0, None), (1, 2, None), (2, 3, None), (3, 2, None), (3, 4, None), (4, 3, None), (4, 5, None), (4, 6, (0.0, 0.25, 0.5)),
                    (5, 4, (0.0, 0.2, 0.4)), (5, 6, (0.0, 0.2, 0.4, 0.6)), (6, 7, (0.0, 0.17, 0.34))]
 
@@ -28,7 +28,7 @@ def describe():
                       "adapters.py:SingleAdapter.__init__/_make_aligner", "adapters.py:<8 adapter classes>.__init__/_aligner/match_to", "adapters.py:SingleMatch.__init__"],
         "bounds": {"quick": {"(adapter length, read length, rates)": QUICK_SHAPES, "adapter alphabet": AC.IUPAC_ALPHABET, "read alphabet": "all 7-bit ASCII",
                              "rates": "one representative per step of r -> trunc(r*L), L <= adapter length, on [0,1); where a shape lists rates, only the representatives nearest to them", "min_overlap": "symbolic 1..m+1",
-                             "switches": "adapter wildcards x read wildcards x indels, all 8 classes"},
+                             "switches": "adapter wildcards x read wildcards x indels, all 8 classes (both wildcard switches together not at (4,5))"},
                    "thorough": {"(adapter length, read length, rates)": THOROUGH_SHAPES, "note": "as quick, larger shapes; rates=None means every representative"}},
         "outside_bounds": ["adapters / reads longer than the listed shapes", "non-ASCII reads (the kernels raise ValueError)", "lower-case adapters (the CLI upper-cases; the constructor does too)",
                            "score field of the match (not part of this property)"],
@@ -68,6 +68,8 @@ def jobs(tier, seed):
     for (m, n, wanted) in shapes:
         for kind in AC.BASIC_KINDS:
             for cfg in configs(m, wanted):
+                if tier == "quick" and (m, n) == (4, 5) and cfg["adapter_wildcards"] and cfg["read_wildcards"]:
+                    continue   # quick tier: both wildcard switches together only at the smaller shapes
                 out.append({"name": "%s/m=%d/n=%d/%s" % (kind, m, n, AC.cfg_name(cfg)), "kind": kind, "m": m, "n": n, "cfg": cfg})
     return out
 
